@@ -50,7 +50,7 @@ CHECKS = {
     ),
     "C12": (
         "explicit-state breadth-first search over session prefixes (runs to completion / error / STOP / interrupted after k instructions, direct statements) for a family of programs, RUN and CLEAR/NEW+probes compared with a fresh interpreter",
-        "For each of 13 programs every history up to 4 (quick) / 5 (thorough) actions from 32 (direct statements incl. ones that fail to compile or link, edits, interrupted runs) is executed; every RUN must equal RUN in a fresh interpreter with the current listing and CLEAR / NEW followed by 10 probe lines must equal the probes in a fresh interpreter. Exhaustive within the depth bound and the program family.",
+        "For each of 13 programs every history up to 4 (quick) / 6 (thorough) actions from 32 (direct statements incl. ones that fail to compile or link, edits, interrupted runs) is executed; every RUN must equal RUN in a fresh interpreter with the current listing and CLEAR / NEW followed by 10 probe lines must equal the probes in a fresh interpreter. Exhaustive within the depth bound and the program family.",
         "Differential oracle (implementation from a history vs implementation from scratch); state identity by verif_digest; RND and TRON excluded as documented.",
         "DESIGN.md §3 C12",
     ),
